@@ -184,6 +184,16 @@ def files(tier, seed):
         out.append("with lib;\n" + c + "\n")
         out.append("let\n  a = 1;\nin\n" + c + "\n")
         out.append("{ pkgs }:\n" + c + "\n")
+    # directly nested let blocks (2, 3 and 4 levels), with and without comments between them, at top level and under a lambda
+    for levels in (2, 3, 4):
+        for note in (False, True):
+            for head in ("", "{ pkgs }:\n"):
+                parts = []
+                for k in range(levels):
+                    if note and k:
+                        parts.append(f"# level {k}")
+                    parts.append(f"let\n  v{k} = {k if k == 0 else 'v%d' % (k - 1)};\n  w{k} = {k};\nin")
+                out.append(head + "\n".join(parts) + "\n{\n  a = v%d;\n}\n" % (levels - 1))
     for bk in ["plain", "quoted", "attrpath", "inherit", "inherit_from"]:
         for rep in range(6):
             g2 = Gen(random.Random(rep * 7 + len(bk)), 3)
